@@ -29,7 +29,7 @@ from .. import leanio, pyextract
 from ..core import Ctx, ExtractError, load_corpus
 
 ID = "C18"
-LEVEL = "proof"
+LEVEL = "partial"
 ENGINES = ["lean-model", "pyextract", "purediff"]
 LEVEL_TEXT = (
     "Lean theorems, no size/depth bounds. Response: allowed_iff, status_iff_denied, error_priority (minimal sort key, "
@@ -77,7 +77,9 @@ THEOREMS = [
     ("Kopf.Props.C18", "Kopf.C18.fidelity"),
     ("Kopf.Props.C18", "Kopf.C18.fidelity_fns"),
     ("Kopf.Props.C18", "Kopf.C18.returned_patch_fidelity"),
-    ("Kopf.Props.C18", "Kopf.C18.serve_allowed_iff"),
+    ("Kopf.Props.C18", "Kopf.C18.serve_allowed_exact"),
+    ("Kopf.Props.C18", "Kopf.C18.serve_allowed_iff_partial"),
+    ("Kopf.Props.C18", "Kopf.C18.same_id_denial_lost_witness"),
     ("Kopf.Props.C18", "Kopf.C18.serve_warnings_order"),
     ("Kopf.Props.C18", "Kopf.C18.apply_nonmapping_root_raises"),
     ("Kopf.Props.C18", "Kopf.C18.dropEmpty_leafEq"),
@@ -126,6 +128,8 @@ SIG_F4 = {"site": "Patch._apply_patch", "shape": "mapping patched over non-mappi
 SIG_EMPTY = {"site": "Patch._apply_patch", "shape": "leafless mapping patched over non-mapping target is ignored"}
 SIG_LISTBOOL = {"site": "jsonpatch.from_diff", "shape": "bool vs equal int not distinguished (list elements, move detection)"}
 SIG_MOVE = {"site": "jsonpatch.from_diff", "shape": "move optimisation with list indices yields a wrong or inapplicable patch"}
+SIG_SAMEID = {"site": "execution.execute_handlers_once",
+              "shape": "outcomes keyed by handler id: the outcome of one same-id handler overwrites another's"}
 SIG_OPS = {"site": "WebhooksRegistry.iter_handlers", "shape": "handler.operations not compared with the request operation"}
 
 # =================================================================================================
@@ -793,6 +797,19 @@ def gen_serve_case(r: random.Random) -> dict:
             twin["subresource"] = subresource if r.random() < 0.5 else r.choice([None, "status", "scale", "*"])
             twin["filter"] = r.choice(["none"] * 4 + ["when-true", "when-false", "label-yes", "other-resource"])
             hs.insert(r.randint(hs.index(base) + 1, len(hs)), twin)
+    if r.random() < 0.25:
+        # TWO DIFFERENT functions under ONE id (e.g. `@kopf.on.validate` and `@kopf.on.mutate` on two functions of
+        # one name, as in `def check` twice): both are candidates for every review sent to that webhook id
+        base = r.choice(hs)
+        other = copy.deepcopy(base)
+        other["fn"] = "g" + base["id"][1:]
+        other["reason"] = ("validating" if base["reason"] == "mutating" else "mutating") if r.random() < 0.7 else base["reason"]
+        other["warnings"] = [w + "'" for w in base["warnings"]] if r.random() < 0.5 else []
+        other["error"] = gen_error(r) if r.random() < 0.5 else None
+        other["piece"], other["fns"], other["tags"] = {}, [], []
+        if r.random() < 0.5:
+            other["subresource"], other["filter"], other["operations"] = base["subresource"], base["filter"], base["operations"]
+        hs.insert(r.choice([hs.index(base), hs.index(base) + 1, len(hs)]), other)
     ids_ = [h["id"] for h in hs]
     webhook = r.choice([None] * 6 + [r.choice(ids_), r.choice(ids_), "nobody"])
     reason_hint = r.choice([None] * 5 + ["validating", "mutating"])
@@ -1245,14 +1262,32 @@ async def eval_serve(env: dict, case: dict) -> Result:
     if got is not None and (content or fns_decl) and not res.diff_suspect:
         res.reqs.append(("apply(serve json patch applied)", ["C18.apply", body, content, fns_decl], ["ok", got]))
     # ---- allowed / status / warnings
-    oracle_response(res, resp, raised_list, issued)
+    # `outcomes` as the code keeps them: a dict keyed by the handler id (later same-id outcomes overwrite)
+    by_id: dict[str, Any] = {}
+    for k, e in zip(log, raised_list):
+        by_id[k[1]] = e
+    collapsed = list(by_id.values())
+    strict = Result()
+    oracle_response(strict, resp, raised_list, issued)      # the property: every selected handler counts
+    if strict.fails and len(collapsed) != len(raised_list):
+        lenient = Result()
+        oracle_response(lenient, resp, collapsed, issued)
+        if not lenient.fails:
+            lost = [k for k, e in zip(log, raised_list) if e is not None and by_id[k[1]] is not e]
+            res.fail(f"{strict.fails[0][0]} — the outcome of {lost or log} was overwritten by a later handler with the same id",
+                     SIG_SAMEID)
+            res.tags.append("same-id:outcome-lost")
+            strict.fails = []
+    res.fails.extend(strict.fails)
+    if len({k[1] for k in log}) < len(log):
+        res.tags.append("same-id:two-functions-ran")
     if r.get("uid") != "uid1":
         res.fail("response uid differs from the request uid", {"site": "admission.build_response", "shape": "uid"})
     if ("patch" in r) != bool(ops) or (r.get("patchType") == "JSONPatch") != ("patch" in r):
         res.fail("patch / patchType are not 'present exactly when there are operations'",
                  {"site": "admission.build_response", "shape": "patch encoding"})
     impl = _resp_view(r)
-    res.reqs.append(("response(serve)", ["C18.response", raised_list, issued, ops], ["ok", impl]))
+    res.reqs.append(("response(serve)", ["C18.response", collapsed, issued, ops], ["ok", impl]))
     res.reqs.append(("serve", ["C18.serve", _entries(env, case, raised, labels_now), cj_all, body, content, fns_decl, ops], ["ok", impl]))
     if ops and not r.get("allowed"):
         res.tags.append("patch-on-denial")
